@@ -103,3 +103,23 @@ func specB2U(b bool) int {
 	}
 	return 0
 }
+
+// Call-trace ghost (per path of the function under verification; see DESIGN.md 8.9):
+// gvcCalls(f): how often the function under contract named f (the key used in "//@ func")
+// has been called so far; gvcCallArg / gvcCallRes: argument i (receiver first) / result i of
+// the last such call. Interface calls are recorded under the interface method's key,
+// calls of a context.CancelFunc value under "context.CancelFunc" (argument 0 = the function value).
+func gvcCalls(f string) int             { panic("ghost") }
+
+// gvcCallSeq(f): position of the last call of f in the path's trace (0: none).
+func gvcCallSeq(f string) int { panic("ghost") }
+func gvcCallArg[T any](f string, i int) T { panic("ghost") }
+func gvcCallRes[T any](f string, i int) T { panic("ghost") }
+
+// gvcSameRef(a, b): a and b are the same reference (for function values and channels of
+// different types, which Go source cannot compare).
+func gvcSameRef(a, b any) bool { panic("ghost") }
+
+// gvcCloser(ch): this goroutine is the one that closes ch (ghost; never changes). A goroutine
+// must not wait for a channel that only it closes: see (*Conn).waitGoroutines [not-self-join].
+func gvcCloser(ch any) bool { panic("ghost") }
